@@ -1424,10 +1424,6 @@ impl Compiler {
                     self.commit_local_register(target_register)?;
 
                     if let Some(type_hint) = maybe_type {
-                        self.compile_assert_type(target_register, *type_hint, Some(target), ctx)?;
-                    }
-
-                    if let Some(type_hint) = maybe_type {
                         self.compile_assert_type(
                             target_register,
                             *type_hint,
@@ -1440,7 +1436,16 @@ impl Compiler {
                         self.compile_value_export(*id, target_register)?;
                     }
                 }
-                Node::Ignored(..) => {
+                Node::Ignored(_, maybe_type) => {
+                    // e.g. `let {a as _: Number} = x`, nothing gets assigned but the type is checked
+                    if let Some(type_hint) = maybe_type {
+                        self.compile_assert_type(
+                            target_register,
+                            *type_hint,
+                            Some(id_or_ignored),
+                            ctx,
+                        )?;
+                    }
                     self.pop_register()?; // target_register
                 }
                 unexpected => {
